@@ -76,11 +76,7 @@ Call ==
          d == IF lastCall[i] < 0 THEN 0 ELSE t - lastCall[i]
          m0 == mem[i]
          m == StepOf(m0, E.in, d)
-         \* the FB executor keeps only the clamped ET of a TON: once the elapsed time has
-         \* overshot PT and PT is raised while IN stays true, struct path and executor path
-         \* of the repository disagree with each other; such calls are counted, not judged
-         newDoubt == kind = "TON" /\ via = "st" /\ E.in.in /\
-                     (doubt[i] \/ (Has(m0, "lastPt") /\ m0.et > Pos(m0.lastPt) /\ Pos(E.in.pt) > Pos(m0.lastPt)))
+         newDoubt == FALSE
          why == IF newDoubt THEN {} ELSE Why(m0, m, E.in, E.out)
          m1 == IF kind = "TON" THEN [et |-> m.et, q |-> m.q, lastPt |-> E.in.pt] ELSE m
      IN /\ now' = t /\ lastCall' = [lastCall EXCEPT ![i] = t] /\ mem' = [mem EXCEPT ![i] = m1]
